@@ -137,7 +137,8 @@ def validate_shards(module, shard_paths, workdir, env_extra=None, cfg=None, drif
             done = re.search(r'^"DONE (\d+)"', out, re.M)
             nlines = sum(1 for _ in open(path))
             if rc != 0 or not done or int(done.group(1)) != nlines:
-                raise ToolError(f"TLC did not accept/consume {path} (rc={rc}, lines={nlines}):\n{out[-3000:]}")
+                errs = "\n".join(l for l in out.splitlines() if re.search(r"rror|xception|Assert|overflow|FxReal|OutOfMemory", l))[:3000]
+                raise ToolError(f"TLC did not accept/consume {path} (rc={rc}, lines={nlines}):\n{errs}\n...\n{out[-1500:]}")
             tot_events += nlines
             g, d = parse_states(out)
             states += d
